@@ -269,10 +269,10 @@ def extend (ops : FloatOps) (v : PV) (e : Ext) : Except ModErr PV :=
     | .f64 l => .ok (.f64 (l ++ e.asFloats ops .w64))
     | .tags _ | .date _ | .dateTime _ | .time _ => .error .incompatibleNumber
 
-/-- `truncate(limit)` -/
+/-- `truncate(limit)` (repaired code: a single string is one item, limit 0 empties the value) -/
 def truncate (limit : Nat) : PV → PV
   | .empty => .empty
-  | .str s => .str s
+  | .str s => if limit = 0 then .empty else .str s
   | .strs l => .strs (l.take limit)
   | .tags l => .tags (l.take limit)
   | .ints k l => .ints k (l.take limit)
